@@ -273,6 +273,27 @@ theorem deferred_deletion_witnesses :
     r1.2 = some .noSuchFile ∧ present r1 ["e", "d"] = true ∧
     r2.2 = some .dirNotEmpty ∧ isFile r2 ["a", "b"] "2" false = true := by decide
 
+/-- ... and (3) when the new occupant is an EMPTY directory the deferred rmdir
+succeeds: the upload reports no error and the directory is gone from the remote -/
+theorem deferred_deletion_empty_occupant_witness :
+    let c : Cfg := { renames := .childrenFirst, robustSymlinks := true, kindChangeAtNew := true }
+    let r := uploadInc c [] [⟨["a"], .dir, "", false, ""⟩]
+      { removed := [⟨["a"], .dir⟩, ⟨["a", "b"], .file⟩], renamed := [⟨["d"], ["a"], false⟩] }
+      (.dir [("a", .dir [("b", .file "1" false)]), ("d", .dir [])])
+    r.2 = none ∧ present r ["a"] = false ∧ present r ["d"] = false := by decide
+
+/-- the hypotheses of `upload_renames_reach_tree_partial` on a concrete remote: a file, a directory with
+content and an executable exchange their names in a cycle while a fourth entry stays -/
+example :
+    let kids : Kids := [("a", .file "1" false), ("b", .dir [("x", .link "t")]), ("c", .file "3" true), ("k", .file "4" false)]
+    let rs := [("a", "b"), ("b", "c"), ("c", "a")]
+    let c : Cfg := { renames := .childrenFirst, robustSymlinks := true, kindChangeAtNew := true }
+    Independent (stageMoves (stagingOrder c rs) 0) ∧ Independent (finishMoves (stagingOrder c rs) 0) ∧
+    (∀ r ∈ rs, kget kids r.1 ≠ none) ∧ (∀ m ∈ stageMoves (stagingOrder c rs) 0, kget kids m.2 = none) ∧
+    (∀ r ∈ rs, kget kids r.2 = none ∨ r.2 ∈ rs.map (·.1)) ∧
+    (uploadInc c [] [] { renamed := toRenamed rs } (.dir kids)).2 = none := by
+  refine ⟨⟨by decide, by decide, by decide⟩, ⟨by decide, by decide, by decide⟩, by decide, by decide, by decide, by decide⟩
+
 /-- `upload --full` onto an existing remote never deletes what left the tree -/
 theorem full_upload_keeps_stale_witness :
     let r := uploadFull {} [] [⟨["a"], .file, "x", false, ""⟩] (.dir [("a", .file "old" false), ("gone", .file "y" false)])
